@@ -52,4 +52,4 @@ Example C05_bitmap_nonvacuous :
   let g := {| g_bits := 32; g_base := 167772160; g_ppl := 31; g_pl := 32 |} in
   g_total g < W64 /\ outp (brun g [Alloc 1; Alloc 2]) (Alloc 3) = OErr 1 /\
   outp (brun g [Alloc 1; Alloc 2; Release 1]) (Alloc 3) = OUnit 167772160.
-Proof. cbv zeta. repeat split; vm_compute; reflexivity. Qed.
+Proof. cbv zeta. split; [vm_compute; reflexivity|split; vm_compute; reflexivity]. Qed.
